@@ -21,7 +21,7 @@ man = {
   "enable": "go build tag: engines are compiled with `go1.26.8 test -c -tags verif` against /repo via module replace directives",
   "baseline_off_cmd": "/verif/baseline_off.sh", "source_commits": hooks[::-1], "add_only": True},
  "engines": [], "checks": [], "not_applicable": [],
- "notes": "Deterministic simulation with fault injection; see DESIGN.md. Exit 2 = build/watchdog/infrastructure trouble, never a VIOLATION. known_findings.json and known_findings.d/*.json list genuine defects: 26 repaired by fix: commits (status fixed, suppress nothing) and 6 recorded as known findings (C04 x4, C03, C06; each check prints a KNOWN-FINDING line when it meets one and exits 0)."
+ "notes": "Deterministic simulation with fault injection; see DESIGN.md. Exit 2 = build/watchdog/infrastructure trouble, never a VIOLATION. known_findings.json and known_findings.d/*.json list genuine defects: 28 repaired by fix: commits (status fixed, suppress nothing) and 6 recorded as known findings (C04 x4, C03, C06; each check prints a KNOWN-FINDING line when it meets one and exits 0)."
 }
 used = {}
 for pid in sorted(TEXT):
